@@ -88,7 +88,9 @@ def loop_unknown(v):
     if isinstance(v, Unknown) and v.why.startswith("loop:"):
         parts = v.why.split(":")
         if len(parts) >= 4 and parts[-2].startswith("bb") and parts[-1].startswith("_"):
-            return ":".join(parts[1:-2]), int(parts[-1][1:]), int(parts[-2][2:])
+            import re as _re
+            # the function name without the frame context (`_c<call site>w<widened>` per inlining level)
+            return _re.sub(r"(_c\d+w\d+)+$", "", ":".join(parts[1:-2])), int(parts[-1][1:]), int(parts[-2][2:])
     return None
 
 
